@@ -34,6 +34,20 @@ CHECKS = {
              "inequality-index shapes over all 32-bit signed/unsigned values.", "DESIGN.md#c06"),
     "C08": R("btree / brie / default representation variants and eqrel programs (closure defined by explicit rules in the reference) proved "
              "equal to the least model for every database in the bound; K part: eqrel lookup sentinel logic.", "DESIGN.md#c08"),
+    "C02": dict(engine="K", cat="other", tech="bounded model checking (CBMC, SAT/SMT back ends) of code emitted by the real synthesiser (souffle -g) lowered through clang IR -> C, against the interpreter's kernels and bit-vector specifications",
+                text="Kernels only: (a) every intrinsic operator/constraint expression emitted by the synthesiser equals the interpreter's kernel and a "
+                     "bit-vector spec for all 32-bit arguments in the defined domain; (b) every emitted index comparator is a strict weak order equal to the "
+                     "typed lexicographic order and to the interpreter's comparator; (c) emitted range bounds with MIN/MAX sentinels select exactly the "
+                     "matching tuples; (d) aggregate initial values / fold steps agree.  Generated loop nests, relation wrappers and -C/-G splitting are outside.",
+                ref="DESIGN.md#c02", note=K_NOTE),
+    "C22": dict(engine="K", cat="model_checking", tech="bounded model checking (CBMC) of the sliced interpreter counter and the synthesiser's emitted counter expression, all interleavings of 2-3 threads",
+                text="Engine::incCounter with its real member declaration and the counter expression + field declaration emitted by souffle -g, run by 2 and 3 "
+                     "threads x 2 calls under all interleavings: returned values pairwise distinct. Counterexample schedules are replayed natively.",
+                ref="DESIGN.md#c22", note=K_NOTE),
+    "C24": dict(engine="K", cat="proof", tech="bounded model checking (CBMC with SAT, z3 and cvc5 back ends) of the verbatim interpreter operator/constraint cases and the synthesiser's emitted expressions against independent bit-vector/IEEE specifications, all 32-bit arguments",
+                text="For each numeric operator x type: interp(a,b) == synth(a,b) == spec(a,b) for all 32-bit arguments in the defined domain; every obligation "
+                     "is a solver unsat with a reachable witness twin. String operators and range generators are outside; ^ only as equality of back ends.",
+                ref="DESIGN.md#c24", note=K_NOTE),
     "C30": dict(engine="K", cat="model_checking", tech="bounded model checking (CBMC, SAT) of IR-derived C of the real lock, all interleavings of 3 clients",
                 text="Every role triple of {write, try-write, upgrade, abort, read} over the real OptimisticReadWriteLock methods is one CBMC query "
                      "over all interleavings of 3 clients (unwinding assertions on): single writer, validated reads, sound upgrades, abort "
